@@ -69,6 +69,15 @@ def generate(tier, rng):
                     dict(dims=["t"], values=[Fraction([5, 3, 9][(k + i) % 3], 2) for i in range(n)])]
             cases.append(dict(stream="history", gname="unit", grid=grid, cls=cls, solver=solver, seq="".join(s), prms=prms,
                               drvs=[[rng.randint(1, 9) for _ in range(n)] for _ in range(3)], at=["start", "end", "middle"][k % 3], n_pts=1, in_system=(k % 2 == 0)))
+    # a scenario loop: one parameter array, overwritten in place and handed to set_prms again before each computation
+    for cls, solver in (("idsm", None), ("sdsm", "manual"), ("sdsm", "lapack")):
+        for s in [q for q in seqs if q.count("P") >= 2 and "".join(q).rfind("C") > [i for i, ch in enumerate(q) if ch == "P"][1]][:: (3 if tier == "quick" else 1)]:
+            k += 1
+            grid = c03.GRIDS[["unit", "uneven_p2"][k % 2]]
+            n = len(grid)
+            prms = [[9, 12, 20][k % 3], dict(dims=["t"], values=[[20, 9, 12, 33][(k + i) % 4] for i in range(n)]), [20, 9, 12][k % 3]]
+            cases.append(dict(stream="history", gname=["unit", "uneven_p2"][k % 2], grid=grid, cls=cls, solver=solver, seq="".join(s), prms=prms, reuse_prm=True,
+                              drvs=[[rng.randint(1, 9) for _ in range(n)] for _ in range(3)], at=["start", "middle", "end"][k % 3], n_pts=1, in_system=(k % 2 == 0)))
     # drivers that differ by very little (a finite-difference step of 2^-20) or are tiny throughout (a unit of 2^-40): the
     # driver held at the moment of compute() counts, however close to the previous one it is
     for cls, solver in (("idsm", None), ("sdsm", "manual"), ("sdsm", "lapack")):
@@ -116,8 +125,23 @@ def _lt(case, prm):
     return dict(kind=kind, mean=prm[0], std=prm[1], inflow_at=case["at"], n_pts=case["n_pts"])
 
 
+_HOLDER = {}
+
+
 def _set_prms(case, st, dims, prm):
     kind = case.get("kind", "fixed")
+    if kind == "fixed" and case.get("reuse_prm"):
+        # a scenario loop: ONE parameter array, overwritten in place with the new values and handed to set_prms again
+        import flodym as fd
+        tdim = fd.DimensionSet(dim_list=[dims[dims.letters[0]]])
+        new = np.array([float(Fraction(v)) for v in prm["values"]]) if isinstance(prm, dict) else np.full(tdim.shape, float(Fraction(prm)))
+        h = _HOLDER.get(id(st))
+        if h is None or h[0] is not st:
+            h = _HOLDER[id(st)] = (st, fd.Parameter(dims=tdim, values=new.copy()))
+        else:
+            h[1].values[...] = new
+        st.lifetime_model.set_prms(mean=h[1])
+        return
     if kind == "fixed":
         st.lifetime_model.set_prms(mean=sd.mk_param(dims, prm))
     elif kind == "weibull":
